@@ -286,6 +286,22 @@ func (ms *MessageStreamer) Go(ctx context.Context, conn StreamConnection) error 
 						}
 					}
 				}
+			} else if results.NumDeadLettered == 0 {
+				// nothing could be sent: either nothing is deliverable (the fetch has
+				// already waited for that) or what is deliverable does not fit the
+				// remaining byte budget, in which case the fetch returns at once.
+				// Fetching again immediately spins on the database and, on SQLite,
+				// starves the transactions that would free the budget (acks and
+				// nacks). Wait until flow control or the backlog changes, with a
+				// periodic re-check for deliveries whose lease lapses meanwhile.
+				select {
+				case <-ctx.Done():
+					return nil
+				case <-wakeSend:
+				case <-pubNotify:
+					pubNotify = PublishAwaiter(*ms.SubscriptionID)
+				case <-time.After(250 * time.Millisecond):
+				}
 			}
 		}
 	})
